@@ -70,14 +70,13 @@ year=1993, AUTHOR= {Knuth, Donald E. and Leslie Lamport}
 @misc(k), note={q {"} q})
 -/
 
-theorem c01_example_wf : WF c01Doc c01Layout := by decide +kernel
-
 /-! ### stage 2: values -/
 
 /-- **Value round trip.**  Let `v` be a well-formed value under the piece layouts `ls` (literals
 brace-balanced with nesting ≤ 100, quoted spelling only without a level-0 `"`, bare spelling only
 for non-empty digit strings, macro names NAMEs defined in `m`; any case mask on macro names, any
-white space around `#`).  If the reader's macro dictionary implements the table `m` and the input
+white space around `#`).  If the reader's macro dictionary agrees with the table `m` on every
+lookup and the input
 is the rendering of `v` followed by white space `w` and a character `c` that is neither white
 space nor `#`, such that what follows the rendering does not start with a NAME character
 (`,` `}` `)` qualify, with or without white space in front), then `parseValue` succeeds, consumes
@@ -87,7 +86,7 @@ theorem C01_value_roundtrip (m : Macros) (v : Value) (ls : List PieceLayout) (s 
     (w : Str) (c : Char) (r : Str)
     (hs : s.rest = renderValue v ls ++ (w ++ c :: r))
     (hv : valueOk m v ls = true)
-    (hm : CIDict.Inv s.macros ∧ CIDict.abs s.macros = m)
+    (hm : ∀ k, s.macros.getItem k = OMap.get m k)
     (hw : wsOk w = true) (hc : isWs c = false) (hc' : c ≠ '#')
     (hn : ∀ x ∈ (w ++ c :: r).head?, isNameChar x = false) :
     ∃ ln', parseValue s =
@@ -110,6 +109,314 @@ theorem C01_value_roundtrip_nonvacuous :
     ?_, by decide +kernel⟩
   intro x hx
   cases hx
+  decide +kernel
+
+/-! ### stage 3: fields and commands -/
+
+/-- **Field round trip.**  A rendered field `ws name ws = ws value ws` (any case mask on the name)
+followed by a character that is not white space, not `#` and not a NAME character (`,` or the
+closing delimiter) is read back by `parseField` as the name *as written* and the expanded pieces
+of the value; exactly the rendering is consumed and nothing else changes (no report). -/
+theorem C01_field_roundtrip (m : Macros) (f : Str × Value) (l : FieldLayout) (s : St) (c : Char) (r : Str)
+    (hs : s.rest = renderField f l ++ c :: r)
+    (hn : isName f.1 = true) (hv : valueOk m f.2 l.pieces = true)
+    (hw : wsOk l.beforeName = true ∧ wsOk l.beforeEq = true ∧ wsOk l.afterEq = true ∧ wsOk l.afterValue = true)
+    (hm : ∀ k, s.macros.getItem k = OMap.get m k)
+    (hc : isWs c = false ∧ c ≠ '#' ∧ isNameChar c = false) :
+    ∃ ln', parseField s = .ok ()
+      { s with rest := c :: r, ln := ln', curFieldName := some (applyMask f.1 l.mask),
+               curValue := expandPieces m f.2 } :=
+  BibRT.parseField_field m f l s c r hs hn hv hw.1 hw.2.1 hw.2.2.1 hw.2.2.2 hm ⟨hc.1, hc.2.1, hc.2.2⟩
+
+theorem C01_field_roundtrip_nonvacuous :
+    let f : Str × Value := ("journal".toList, [.macro "jan".toList, .lit "1".toList])
+    let l : FieldLayout :=
+      { beforeName := "\r\n  ".toList, mask := [.up, .up], afterEq := "\t".toList,
+        pieces := [{ mask := [.up] }, { spelling := .bare, beforeHash := " ".toList }], afterValue := " ".toList }
+    renderField f l = "\r\n  JOurnal=\tJan #1 ".toList ∧ isName f.1 = true ∧
+    valueOk initMacros f.2 l.pieces = true ∧
+    (wsOk l.beforeName = true ∧ wsOk l.beforeEq = true ∧ wsOk l.afterEq = true ∧ wsOk l.afterValue = true) ∧
+    (isWs '}' = false ∧ '}' ≠ '#' ∧ isNameChar '}' = false) := by
+  decide +kernel
+
+/-- **Entry round trip.**  For a well-formed entry under a command layout (`cmdOk`: type a NAME
+other than string/preamble/comment, scannable key, well-formed fields, white space only where
+white space is rendered), `parseCommand` started right behind the `@` of the rendering returns
+`Cmd.entry` with the type and the field names as written, the key, and for every field the
+expanded pieces of its value, in source order; it consumes exactly the rendering up to and
+including the closing delimiter (whatever delimiter pair, value spellings, case masks, white
+space and trailing comma the layout chooses) and reports nothing. -/
+theorem C01_entry_roundtrip (m : Macros) (keys : List Str) (ty key : Str) (fs : List (Str × Value))
+    (l : CmdLayout) (s : St) (r : Str)
+    (hs : '@' :: s.rest = renderCmd (.entry ty key fs) l ++ r)
+    (hok : cmdOk m keys (.entry ty key fs) l = true)
+    (hm : ∀ k, s.macros.getItem k = OMap.get m k) (hwant : s.db.wanted = none) :
+    ∃ ln' fn cv, parseCommand s =
+      .ok (Cmd.entry (applyMask ty l.mask) (some key)
+            ((writtenFields fs l.fields).map fun f => (f.1, expandPieces m f.2)))
+        { s with rest := l.afterClose ++ r, ln := ln', curKey := some key,
+                 curFields := (writtenFields fs l.fields).map fun f => (f.1, expandPieces m f.2),
+                 curFieldName := fn, curValue := cv } :=
+  BibRT.parseCommand_entry m keys ty key fs l s r hs hok hm hwant
+
+/-- **`@string` round trip.**  The macro table is updated under the written name with the
+expansion of the value; the command itself yields nothing. -/
+theorem C01_string_roundtrip (m : Macros) (keys : List Str) (n : Str) (v : Value) (l : CmdLayout)
+    (s : St) (r : Str)
+    (hs : '@' :: s.rest = renderCmd (.strdef n v) l ++ r)
+    (hok : cmdOk m keys (.strdef n v) l = true)
+    (hm : ∀ k, s.macros.getItem k = OMap.get m k) :
+    (∃ ln', parseCommand s = .ok Cmd.string
+        { s with rest := l.afterClose ++ r, ln := ln', curKey := none, curFields := [],
+                 curFieldName := some (applyMask n l.nameMask), curValue := expandPieces m v,
+                 macros := s.macros.setItem (applyMask n l.nameMask) (expand m v) }) ∧
+    (∀ k, (s.macros.setItem (applyMask n l.nameMask) (expand m v)).getItem k =
+        OMap.get (stepMacros m (.strdef n v)) k) :=
+  ⟨BibRT.parseCommand_strdef m keys n v l s r hs hok hm,
+   BibRT.macRef_set hm (BibRT.lower_applyMask n l.nameMask) (expand m v)⟩
+
+/-- **`@preamble` round trip.** -/
+theorem C01_preamble_roundtrip (m : Macros) (keys : List Str) (v : Value) (l : CmdLayout)
+    (s : St) (r : Str)
+    (hs : '@' :: s.rest = renderCmd (.preamble v) l ++ r)
+    (hok : cmdOk m keys (.preamble v) l = true)
+    (hm : ∀ k, s.macros.getItem k = OMap.get m k) :
+    ∃ ln', parseCommand s = .ok (Cmd.preamble (expandPieces m v))
+        { s with rest := l.afterClose ++ r, ln := ln', curKey := none, curFields := [],
+                 curFieldName := none, curValue := expandPieces m v } :=
+  BibRT.parseCommand_preamble m keys v l s r hs hok hm
+
+/-- **`@comment` is skipped**: `SkipEntry` right behind the opening delimiter; the `@`-free text,
+the closing delimiter and the white space behind it are then passed over by the command loop
+like any other junk (see `C01_faithful`). -/
+theorem C01_comment_skipped (m : Macros) (keys : List Str) (txt : Str) (l : CmdLayout) (s : St) (r : Str)
+    (hs : '@' :: s.rest = renderCmd (.comment txt) l ++ r)
+    (hok : cmdOk m keys (.comment txt) l = true) :
+    ∃ ln', parseCommand s = .fail .skip
+        { s with rest := txt ++ closer l.paren :: (l.afterClose ++ r), ln := ln', curKey := none,
+                 curFields := [], curFieldName := none, curValue := [] } :=
+  BibRT.parseCommand_comment_cmd m keys txt l s r hs hok
+
+/-! instances of the hypotheses of the four command theorems: the commands of the example document
+are well-formed in the macro table / key set that precedes them (the equation on `s.rest` and the
+agreement of the macro dictionary are met by choosing the state) -/
+
+theorem C01_string_roundtrip_nonvacuous :
+    cmdOk initMacros [] (c01Doc.getD 1 (.junk [])) (c01Layout.getD 1 {}) = true ∧
+    renderCmd (c01Doc.getD 1 (.junk [])) (c01Layout.getD 1 {}) =
+      "@ StRing\n(\r\njV\t= \"Journal of \" #\r{V}\n)\n\n".toList := by
+  decide +kernel
+
+theorem C01_preamble_roundtrip_nonvacuous :
+    cmdOk (stepMacros initMacros (c01Doc.getD 1 (.junk []))) [] (c01Doc.getD 2 (.junk [])) (c01Layout.getD 2 {}) = true ∧
+    renderCmd (c01Doc.getD 2 (.junk [])) (c01Layout.getD 2 {}) =
+      "@Preamble{{\\newcommand{\\x}{y} } #FeB}\n".toList := by
+  decide +kernel
+
+theorem C01_comment_skipped_nonvacuous :
+    cmdOk initMacros [] (c01Doc.getD 3 (.junk [])) (c01Layout.getD 3 {}) = true ∧
+    renderCmd (c01Doc.getD 3 (.junk [])) (c01Layout.getD 3 {}) = "@cOmment(ignored text)\n".toList := by
+  decide +kernel
+
+theorem C01_entry_roundtrip_nonvacuous :
+    let m1 := stepMacros initMacros (c01Doc.getD 1 (.junk []))
+    cmdOk m1 [] (c01Doc.getD 4 (.junk [])) (c01Layout.getD 4 {}) = true ∧
+    cmdOk m1 ["key1".toList] (c01Doc.getD 5 (.junk [])) (c01Layout.getD 5 {}) = true ∧
+    renderCmd (c01Doc.getD 5 (.junk [])) (c01Layout.getD 5 {}) = "@misc(k), note={q {\"} q})".toList := by
+  decide +kernel
+
+/-! ### stage 4: whole documents -/
+
+/-- **Faithfulness.**  For every abstract document `d` and every layout `L` with `WF d L`, reading
+the text `render d L` (in either error mode, no wanted-set) raises nothing, reports nothing, and
+yields exactly the database the document denotes, with the identifiers spelled as the layout
+writes them (`written d L` applies the layout's case masks to entry types and field names, the
+only identifiers a database stores): every entry with key, type, fields in source order (values
+expanded, concatenated and white-space-normalised), persons split per role, and the preamble
+list.  Junk, `@comment` blocks, the delimiter pair, literal spellings, macro-name case, white
+space / line ends and trailing commas are all chosen by `L` and do not appear in the result. -/
+theorem C01_faithful (d : ADoc) (L : Layout) (strict : Bool) (h : WF d L) :
+    (parseBib (render d L) strict none).2 = none ∧
+    (parseBib (render d L) strict none).1.errs = [] ∧
+    (parseBib (render d L) strict none).1.db =
+      { entries := (denote (written d L)).entries, preamble := (denote (written d L)).preamble } := by
+  obtain ⟨s', m', keys', h1, hinv⟩ := BibRT.parseBib_faithful d L strict h
+  rw [h1]
+  refine ⟨rfl, hinv.errs, ?_⟩
+  have h2 := hinv.entries
+  have h3 := hinv.preamble
+  have h4 := hinv.proc.wanted
+  have h5 := hinv.proc.cit
+  generalize s'.db = db at h2 h3 h4 h5
+  cases db
+  simp only at h2 h3 h4 h5
+  simp only [h2, h3, h4, h5]
+
+theorem C01_faithful_nonvacuous : WF c01Doc c01Layout := by decide +kernel
+
+/-- when the layout puts no case mask on entry types and field names the result is the denotation
+of the document itself -/
+theorem C01_faithful_plain (d : ADoc) (L : Layout) (strict : Bool) (h : WF d L) (hp : plainIds d L = true) :
+    (parseBib (render d L) strict none).2 = none ∧
+    (parseBib (render d L) strict none).1.errs = [] ∧
+    (parseBib (render d L) strict none).1.db =
+      { entries := (denote d).entries, preamble := (denote d).preamble } := by
+  have := C01_faithful d L strict h
+  rwa [BibRT.written_plain d L hp] at this
+
+theorem C01_faithful_plain_nonvacuous :
+    WF c01Doc [{}, {}, {}, {}, { fields := [{}, {}, {}, {}] }, { paren := true }] ∧
+    plainIds c01Doc [{}, {}, {}, {}, { fields := [{}, {}, {}, {}] }, { paren := true }] = true ∧
+    plainIds c01Doc c01Layout = false := by
+  decide +kernel
+
+/-- what the example denotes (as written): two entries, the preamble, the person list -/
+theorem C01_faithful_example :
+    (denote (written c01Doc c01Layout)).entries.map (fun e => (e.key, e.origType, e.type)) =
+      [("Key1".toList, "aRticle".toList, "article".toList), ("k)".toList, "misc".toList, "misc".toList)] ∧
+    (denote (written c01Doc c01Layout)).entries.map (·.fields) =
+      [[("title".toList, "A {B} c".toList), ("JOurnal".toList, "Journal of V x January".toList),
+        ("year".toList, "1993".toList)],
+       [("note".toList, "q {\"} q".toList)]] ∧
+    (denote (written c01Doc c01Layout)).entries.map (fun e => e.persons.map fun r => (r.1, r.2.map Person.toStr)) =
+      [[("AUTHOR".toList, ["Knuth, Donald E.".toList, "Lamport, Leslie".toList])], []] ∧
+    (denote (written c01Doc c01Layout)).preamble = ["\\newcommand{\\x}{y} February".toList] := by
+  decide +kernel
+
+/-- **Layout independence.**  Two well-formed layouts of the same document give
+(1) equal databases when they spell entry types and field names alike (`written` agrees) —
+whatever they choose for delimiters, literal spellings, concatenation white space, macro-name
+and keyword case, white space / line ends, trailing commas (junk and comments are part of `d`
+and never reach the database: see (3));
+(2) in general databases that differ only in the stored spelling of entry types, field names and
+role names: equal after `ciEntry` (which lower-cases exactly those), with equal preambles; keys,
+lower-cased types, values, persons and all orders coincide;
+(3) and each agrees in this sense with the denotation of `d` itself, which does not depend on
+the junk and comment commands of `d` at all (`denote` ignores them by definition). -/
+theorem C01_layout_independent (d : ADoc) (L₁ L₂ : Layout) (strict₁ strict₂ : Bool)
+    (h₁ : WF d L₁) (h₂ : WF d L₂) :
+    (written d L₁ = written d L₂ →
+      (parseBib (render d L₁) strict₁ none).1.db = (parseBib (render d L₂) strict₂ none).1.db) ∧
+    ((parseBib (render d L₁) strict₁ none).1.db.entries.map ciEntry =
+        (parseBib (render d L₂) strict₂ none).1.db.entries.map ciEntry ∧
+      (parseBib (render d L₁) strict₁ none).1.db.preamble =
+        (parseBib (render d L₂) strict₂ none).1.db.preamble) ∧
+    ((parseBib (render d L₁) strict₁ none).1.db.entries.map ciEntry = (denote d).entries.map ciEntry ∧
+      (parseBib (render d L₁) strict₁ none).1.db.preamble = (denote d).preamble) := by
+  have f₁ := (C01_faithful d L₁ strict₁ h₁).2.2
+  have f₂ := (C01_faithful d L₂ strict₂ h₂).2.2
+  have w₁ := BibRT.denote_written d L₁
+  have w₂ := BibRT.denote_written d L₂
+  refine ⟨fun hw => by rw [f₁, f₂, hw], ?_, ?_⟩
+  · rw [f₁, f₂]; exact ⟨w₁.1.trans w₂.1.symm, w₁.2.trans w₂.2.symm⟩
+  · rw [f₁]; exact w₁
+
+/-- two different well-formed layouts of the example document (the second: all defaults except
+what `WF` forces, i.e. braces, braced literals, no case masks, no white space) -/
+theorem C01_layout_independent_nonvacuous :
+    WF c01Doc c01Layout ∧ WF c01Doc [{}, {}, {}, {}, { fields := [{}, {}, {}, {}] }, { paren := true }] ∧
+    written c01Doc c01Layout ≠ written c01Doc [{}, {}, {}, {}, { fields := [{}, {}, {}, {}] }, { paren := true }] := by
+  decide +kernel
+
+/-- **Junk and comments.**  Two well-formed renderings of two documents that differ only in their
+junk and `@comment` commands (`stripJunk` removes both) give equal databases when the remaining
+commands are spelled alike, and in general databases equal up to the stored spelling of types,
+field names and role names. -/
+theorem C01_junk_independent (d₁ d₂ : ADoc) (L₁ L₂ : Layout) (strict₁ strict₂ : Bool)
+    (h₁ : WF d₁ L₁) (h₂ : WF d₂ L₂) :
+    (stripJunk (written d₁ L₁) = stripJunk (written d₂ L₂) →
+      (parseBib (render d₁ L₁) strict₁ none).1.db = (parseBib (render d₂ L₂) strict₂ none).1.db) ∧
+    (stripJunk d₁ = stripJunk d₂ →
+      (parseBib (render d₁ L₁) strict₁ none).1.db.entries.map ciEntry =
+        (parseBib (render d₂ L₂) strict₂ none).1.db.entries.map ciEntry ∧
+      (parseBib (render d₁ L₁) strict₁ none).1.db.preamble =
+        (parseBib (render d₂ L₂) strict₂ none).1.db.preamble) := by
+  have f₁ := (C01_faithful d₁ L₁ strict₁ h₁).2.2
+  have f₂ := (C01_faithful d₂ L₂ strict₂ h₂).2.2
+  refine ⟨fun hw => ?_, fun hs => ?_⟩
+  · rw [f₁, f₂, ← BibRT.denote_stripJunk (written d₁ L₁), hw, BibRT.denote_stripJunk]
+  · have w₁ := BibRT.denote_written d₁ L₁
+    have w₂ := BibRT.denote_written d₂ L₂
+    have e : denote d₁ = denote d₂ := by
+      rw [← BibRT.denote_stripJunk d₁, hs, BibRT.denote_stripJunk]
+    rw [f₁, f₂]
+    exact ⟨by rw [w₁.1, w₂.1, e], by rw [w₁.2, w₂.2, e]⟩
+
+/-- the example document and the same document without junk and comment, in different layouts -/
+theorem C01_junk_independent_nonvacuous :
+    WF c01Doc c01Layout ∧
+    WF (stripJunk c01Doc) [{}, {}, { fields := [{}, {}, {}, {}] }, { paren := true }] ∧
+    stripJunk c01Doc ≠ c01Doc ∧ stripJunk (stripJunk c01Doc) = stripJunk c01Doc := by
+  decide +kernel
+
+/-- **Identifiers.**  (1) Under `WF` the database is, in closed form, the list of the document's
+entries as written (`entriesWith` pairs each with the macro table in force): key as written, type
+as written (`origType`) and lower-cased (`type`), every non-person field under its name as written
+in source order, every person role under its name as written (`entryOf`).
+(2) Identifiers are matched case-insensitively: a macro defined under one spelling is found
+under every spelling equal up to case; a field whose name equals an earlier one of the entry up
+to case is reported (`DuplicateField`) and dropped; an entry whose key equals an earlier one up
+to case is reported (`repeated bibliography entry`) and dropped. -/
+theorem C01_identifiers :
+    (∀ (d : ADoc) (L : Layout) (strict : Bool), WF d L →
+      (parseBib (render d L) strict none).1.db.entries =
+        (entriesWith initMacros (written d L)).map entryOf) ∧
+    (∀ (dict : CIDict Str) (n n' v : Str), lower n = lower n' → (dict.setItem n v).getItem n' = some v) ∧
+    (∀ (key name : Str) (parts : List Str) (fs : List (Str × List Str)) (seen : List Str) (e : Entry) (s : St),
+      s.strict = false → seen.contains (lower name) = true →
+      processFields key ((name, parts) :: fs) seen e s =
+        processFields key fs seen e { s with errs := s.errs ++ [⟨.duplicateField key name, none⟩] }) ∧
+    (∀ (s : St) (key : Str) (e e0 : Entry), s.db.wanted = none → s.strict = false →
+      e0 ∈ s.db.entries → lower e0.key = lower key →
+      addEntry s key e = .ok () { s with errs := s.errs ++ [⟨.repeatedEntry key, none⟩] }) := by
+  refine ⟨?_, ?_, ?_, ?_⟩
+  · intro d L strict h
+    rw [(C01_faithful d L strict h).2.2]
+    exact BibRT.denote_entries d L h
+  · intro dict n n' v h; exact BibRT.getItem_setItem_ci dict h v
+  · intro key name parts fs seen e s hs hd; exact BibRT.processFields_duplicate key name parts fs seen e s hs hd
+  · intro s key e e0 hw hs h0 hk; exact BibRT.addEntry_repeated s key e e0 hw hs h0 hk
+
+/-- concrete readings: a macro written in another case, a duplicate field and a repeated key
+that differ in case only -/
+theorem C01_identifiers_nonvacuous :
+    ((parseBib "@string{AbC = \"x\"} @a{k, t = aBc # ABC}".toList false none).1.db.entries.map
+        (fun e => (e.key, e.fields)) = [("k".toList, [("t".toList, "xx".toList)])]) ∧
+    ((parseBib "@a{k, T = 1, t = 2}".toList false none).1.db.entries.map (fun e => (e.key, e.fields)) =
+        [("k".toList, [("T".toList, "1".toList)])] ∧
+     (parseBib "@a{k, T = 1, t = 2}".toList false none).1.errs =
+        [⟨.duplicateField "k".toList "t".toList, none⟩]) ∧
+    ((parseBib "@a{Key, t = 1} @b{kEY, t = 2}".toList false none).1.db.entries.map
+        (fun e => (e.key, e.fields)) = [("Key".toList, [("t".toList, "1".toList)])] ∧
+     (parseBib "@a{Key, t = 1} @b{kEY, t = 2}".toList false none).1.errs =
+        [⟨.repeatedEntry "kEY".toList, none⟩]) := by
+  decide +kernel
+
+/-- **Months.**  The twelve names `jan … dec` of the regenerated table are defined before any
+`@string`: in the state the reader starts from, every spelling `k` of a month name (any case)
+is substituted by the table's value without a report, and the reference table `initMacros` used
+by `denote` expands it to the same value. -/
+theorem C01_months_predefined :
+    Gen.monthMacros.map (·.1) = ["jan", "feb", "mar", "apr", "may", "jun", "jul", "aug", "sep", "oct",
+      "nov", "dec"].map String.toList ∧
+    ∀ p ∈ Gen.monthMacros, ∀ (k text : Str) (strict : Bool), lower k = lower p.1 →
+      substituteMacro k { rest := text, macros := CIDict.ofPairs Gen.monthMacros, strict := strict } =
+        .ok p.2 { rest := text, macros := CIDict.ofPairs Gen.monthMacros, strict := strict } ∧
+      expandPiece initMacros (.macro k) = p.2 := by
+  refine ⟨by decide, ?_⟩
+  intro p hp k text strict hk
+  have h1 : (CIDict.ofPairs Gen.monthMacros).getItem k = some p.2 := by
+    rw [BibRT.getItem_lower _ hk]; exact BibRT.months_getItem p hp
+  refine ⟨by simp only [substituteMacro, h1], ?_⟩
+  have h2 := BibRT.macRef_init k
+  rw [h1] at h2
+  simp only [expandPiece, ← h2, Option.getD_some]
+
+/-- the month macro in any case inside a document: `month = jAn` reads as `January` -/
+theorem C01_months_predefined_nonvacuous :
+    (parseBib "@a{k, month = jAn, m2 = DEC # \"-\" # feb}".toList false none).1.db.entries.map (·.fields) =
+      [[("month".toList, "January".toList), ("m2".toList, "December-February".toList)]] ∧
+    (parseBib "@a{k, month = jAn, m2 = DEC # \"-\" # feb}".toList false none).1.errs = [] := by
   decide +kernel
 
 end Pybtex.Props
